@@ -252,6 +252,14 @@ func (ex *Exec) evalIdent(st *State, id *ast.Ident, sc *SpecCtx) *Val {
 			return v
 		}
 		obj = ex.lookupSpecName(id.Name, sc)
+		if obj == nil && strings.HasPrefix(id.Name, "iter") {
+			// iterN: the number of completed iterations of range loop N (visible inside loops nested in it)
+			if o, ok := ex.hiddenVars["$iter"+id.Name[4:]]; ok {
+				if v, ok := st.vars[o]; ok {
+					return ex.intVal(v.S, types.Typ[types.Int])
+				}
+			}
+		}
 		if obj == nil {
 			ex.specErr("undefined name %q in contract expression", id.Name)
 			return ex.freshVal(nil, "undef")
